@@ -2815,6 +2815,8 @@ def _state_events(ps: PathSym, ref: FuncRef, depth: int = HANDOFF_DEPTH, exact: 
         for n in walk_no_nested(fn):
             if isinstance(n, ast.Call):
                 callee = _callee_or_ctor(ps, r, n)
+                if callee is None and call_method(n) == 'dump_coredata':
+                    out.append(('write', 'coredata.dat', [(r, n, env)] + outer))      # by role (public API, as in R4a) when the receiver's class is not read
                 if callee is not None and callee.mod.rel.startswith('mesonbuild/') and callee.qn != r.qn:
                     env2 = ps.bind_args(callee, n, r, env, 2, frozenset())
                     env2 = {k: v for k, v in env2.items() if any(c for t in v for c in P.consts_in(t))}
@@ -2855,6 +2857,13 @@ def _exists_edge(ps: PathSym, ref: FuncRef, env: T.Dict[str, Terms], test: ast.A
                 return label
             if None in got:
                 unknown.append(short(test))
+            return False
+        callee = ps.resolve_callee(ref, test)
+        if callee is not None and callee.qn not in seen:
+            rets = [n for n in walk_no_nested(callee.node) if isinstance(n, ast.Return)]
+            if len(rets) == 1 and rets[0].value is not None:        # a predicate helper whose single return is such a test
+                env2 = ps.bind_args(callee, test, ref, env, 2, frozenset())
+                return _exists_edge(ps, callee, env2, rets[0].value, label, base, unknown, seen | {callee.qn})
     return False
 
 
@@ -2907,6 +2916,31 @@ def _frame_outcome(ctx: RuleCtx, ps: PathSym, ref: FuncRef, node: ast.AST, env: 
     return 'escapes', exc
 
 
+def _sites_in_module(ps: PathSym, top: FuncRef) -> T.List[T.Tuple[FuncRef, ast.Call]]:
+    """Call sites of `top` (a constructor: of its class) inside its own module.  A same-named method call on an attribute of
+    another object (`intr.backend.generate()`) is not one; on a bare local whose class is not read it is Undecided."""
+    bare = top.qn.rsplit('.', 1)[-1]
+    names = {bare} | ({top.qn.split('.')[-2]} if bare == '__init__' and '.' in top.qn else set())
+    out: T.List[T.Tuple[FuncRef, ast.Call]] = []
+    for qn2, fn2 in top.mod.funcs().items():
+        ref2 = FuncRef(top.mod, qn2)
+        for c in walk_no_nested(fn2):
+            if isinstance(c, ast.Call) and call_method(c) in names:
+                r = _callee_or_ctor(ps, ref2, c)
+                if r is None and isinstance(c.func, ast.Attribute) and isinstance(c.func.value, ast.Name) and c.func.value.id not in ('self', 'cls'):
+                    d = ps.local_defs(fn2).get(c.func.value.id, [])          # app = MesonApp(options); app.generate()
+                    ctors = {attr_chain(x.func) or '' for x in d if isinstance(x, ast.Call)}
+                    if d and len(ctors) == 1 and all(isinstance(x, ast.Call) for x in d):      # every binding constructs the same class
+                        rc = ps.resolve_class(top.mod, next(iter(ctors)))
+                        if rc is not None:
+                            r = ps._method(rc[0], rc[1], bare)
+                    if r is None and c.func.value.id not in ps._imports(top.mod):
+                        raise Undecided(f'{qn2}: `{short(c)}` may or may not call {top.qn}')
+                if r is not None and r.mod.rel == top.mod.rel and r.qn == top.qn:
+                    out.append((ref2, c))
+    return out
+
+
 def _absence_outcome(ctx: RuleCtx, ps: PathSym, chain: StateChain, base: str, depth: int = 2) -> T.Tuple[str, str]:
     """What becomes of the FileNotFoundError of the innermost read when meson-private/<base> is absent, frame by frame out to the
     msetup function and on to its call sites inside msetup: ('tolerated', where) - an existence test of that name dominates the
@@ -2921,26 +2955,16 @@ def _absence_outcome(ctx: RuleCtx, ps: PathSym, chain: StateChain, base: str, de
 
     def callers(top: FuncRef, exc: str, d: int) -> T.Optional[str]:
         """None: some call site lets it escape (or there is none); else where every call site tolerates it."""
-        bare = top.qn.rsplit('.', 1)[-1]
-        names = {bare} | ({top.qn.split('.')[-2]} if bare == '__init__' and '.' in top.qn else set())
         how: T.List[str] = []
-        for qn2, fn2 in top.mod.funcs().items():
-            ref2 = FuncRef(top.mod, qn2)
-            for c in walk_no_nested(fn2):
-                if isinstance(c, ast.Call) and call_method(c) in names:
-                    r = _callee_or_ctor(ps, ref2, c)
-                    if r is None:
-                        raise Undecided(f'{qn2}: `{short(c)}` may or may not call {top.qn}')
-                    if r.mod.rel != top.mod.rel or r.qn != top.qn:
-                        continue
-                    v, x = _frame_outcome(ctx, ps, ref2, c, {}, base, exc)
-                    if v == 'tolerated':
-                        how.append(x)
-                        continue
-                    up = callers(ref2, x, d - 1) if d > 0 else None
-                    if up is None:
-                        return None
-                    how.append(up)
+        for ref2, c in _sites_in_module(ps, top):
+            v, x = _frame_outcome(ctx, ps, ref2, c, {}, base, exc)
+            if v == 'tolerated':
+                how.append(x)
+                continue
+            up = callers(ref2, x, d - 1) if d > 0 else None
+            if up is None:
+                return None
+            how.append(up)
         return '; '.join(sorted(set(how))) if how else None
     top = chain[-1][0]
     up = callers(top, exc, depth)
@@ -3026,6 +3050,16 @@ def _r6_scan(ctx: RuleCtx, repo: Repo, mod: Module, ps: PathSym) -> T.List[T.Tup
             unknown: T.List[str] = []
             others = sorted({b for es in events.values() for k, b, _c in es} - {base})
             tested = _tested_before(ps, top, env0, handoff, others, unknown)
+            holder, hnode = top, handoff
+            for _lvl in range(4):
+                try:
+                    sites = _sites_in_module(ps, holder)
+                except Undecided:
+                    break
+                if len(sites) != 1 or sites[0][0].qn == holder.qn:
+                    break
+                holder, hnode = sites[0]
+                tested = sorted(set(tested) | set(_tested_before(ps, holder, {}, hnode, others, unknown)))
             if unknown:
                 out.append(('undecided', top, handoff, f'{qn}: an existence test before `{short(handoff)}` names a file the rule cannot fold: {unknown[0]}'))
                 continue
@@ -3050,8 +3084,8 @@ def _r6_scan(ctx: RuleCtx, repo: Repo, mod: Module, ps: PathSym) -> T.List[T.Tup
             if not order_ok:
                 out.append(('undecided', top, handoff, f'{qn}: `{short(handoff)}` refuses when meson-private/{base} is absent, but {why}'))
                 continue
-            out.append(('bad', top, handoff, f'hand-off to {chain[-2][0].qn}(...) needs meson-private/{base}\x00'
-                        f'`{short(handoff)}` hands control to a reader of meson-private/{base} ({via}) that refuses when the file is absent ({how} reaches {qn}), '
+            out.append(('bad', holder, hnode, f'hand-off to {chain[-2][0].qn}(...) needs meson-private/{base}\x00'
+                        f'`{short(handoff)}` hands control to a reader of meson-private/{base} ({via}) that refuses when the file is absent ({how} reaches {qn} and, through its only call sites, {holder.qn}), '
                         f'and only {", ".join(tested) if tested else "the directory"} is tested before the call; {why}, so a setup killed in between leaves exactly '
                         f'that state and the re-run of the same `meson setup` command fails instead of finishing the configuration '
                         f'(test the existence of {base} as well, or make the reader tolerate its absence)'))
